@@ -532,6 +532,7 @@ def run_cross_rules(ctx):
             ('valid_grouping', lambda: M.ListGrader(answers=[['a', 'b'], ['c', 'd']], subgraders=M.ListGrader(subgraders=S()), grouping=[1, 2, 1, 2])),
             ('distinct_delimiters', lambda: M.SingleListGrader(delimiter=';', subgrader=M.SingleListGrader(delimiter=',', subgrader=S()))),
             ('delete_default_constant', lambda: M.FormulaGrader(user_constants={'e': None}, variables=['e'])),
+            ('delete_a_constant_that_does_not_exist', lambda: M.FormulaGrader(user_constants={'foo': None, 'c': 2.0})),
             ('whitelist_none', lambda: M.FormulaGrader(whitelist=[None]))]:
         ctx.ev()
         ctx.count('constructions')
